@@ -140,6 +140,10 @@ impl<'a> TokenBasedLuaGenerator<'a> {
 
         if let Some(statement) = block.get_last_statement() {
             self.write_last_statement(statement);
+
+            if let Some(semicolon) = &tokens.last_semicolon {
+                self.write_token(semicolon);
+            }
         }
 
         if let Some(token) = &tokens.final_token {
